@@ -585,6 +585,44 @@ def judge_c13_typed(ctx, cfg):
         v.append({'what': what, 'cfg': cfg, 'input': hx(d), 'type': ty, 'fail_at': k, 'expected': 'Io error with the injected kind, or the fault-free error (%s)' % f, 'actual': o, 'shrinkable': False})
     return v
 
+def judge_typed_budget(ctx, cfg):
+    """the depth budget is restored after every successfully read value of EVERY typed container/wrapper kind: long flat documents
+    (300 sibling values of each kind inside one array / one stream) must be accepted although none nests deeper than 3"""
+    try:
+        from checks import typed as T  # noqa: F401
+    except ImportError:
+        return []
+    L = ctx.letters(cfg)
+    E = 'E(41:wn0,42:S(78:n0),43:u,44:t(n0,n0))'
+    fams = [
+        ('a' + E, lambda i: b'{"A":%d}' % (i % 200)),                      # newtype variants
+        ('a' + E, lambda i: b'{"B":{"x":%d}}' % (i % 200)),                # struct variants
+        ('a' + E, lambda i: b'{"D":[%d,1]}' % (i % 200)),                  # tuple variants
+        ('aan0', lambda i: b'[%d]' % (i % 200)),                           # sequences
+        ('amsn0', lambda i: b'{"k":%d}' % (i % 200)),                      # maps
+        ('aS(61:n0)', lambda i: b'{"a":%d}' % (i % 200)),                  # structs (object form)
+        ('aS(61:n0)', lambda i: b'[%d]' % (i % 200)),                      # structs (array form)
+        ('at(n0,n0)', lambda i: b'[%d,2]' % (i % 200)),                    # tuples
+        ('aoan0', lambda i: b'[%d]' % (i % 200)),                          # option around a seq
+        ('awan0', lambda i: b'[%d]' % (i % 200)),                          # newtype around a seq
+    ]
+    lines, meta = [], []
+    for ty, f in fams:
+        for n in (126, 127, 128, 300):
+            doc = b'[' + b','.join(f(i) for i in range(n)) + b']'
+            for src in ('b', 'r1'):
+                lines.append('pt %s %s %s %s' % (L, src, ty, hx(doc)))
+                meta.append((ty, n, src, doc))
+    outs = ctx.impl(cfg, lines, 'sjh_typed')
+    v = []
+    for (ty, n, src, doc), o in zip(meta, outs):
+        if not o.startswith('ok '):
+            v.append({'what': 'depth-budget-not-restored-typed', 'cfg': cfg, 'input': hx(doc) if len(doc) < 600 else 'len=%d head=%s' % (len(doc), hx(doc[:60])), 'type': ty,
+                      'expected': 'ok: %d sibling values, nesting depth <= 3' % n, 'actual': o[:200], 'shrinkable': False})
+        elif not ctx.quiet:
+            ctx.distinct_nontrivial += 1
+    return v
+
 def run_c13(ctx):
     ctx.rule = ('reader side: for generated documents (valid and invalid) a reader that fails persistently with each of several ErrorKinds once k bytes were delivered, '
                 'for every k in 0..=len, under chunkings 1/3/64/pseudo-random with Interrupted interleaved (all must agree), Value and IgnoredAny targets; outcome must equal '
@@ -681,6 +719,7 @@ def run_c14(ctx):
             items = a.split(' ')
             if cut_at_error(a) != cut_at_error(m) or not all(x.startswith('Va(') for x in items[:5]) or 'RecLimit' not in items[5]:
                 ctx.violations.append({'what': 'depth-budget-not-restored', 'cfg': cfg, 'input': hx(stream), 'expected': m, 'actual': a, 'shrinkable': False})
+        ctx.violations += judge_typed_budget(ctx, cfg)
         if cfg == ctx.cfgs[-1]:
             typed_part(ctx, 'run_c14_typed')
         if cfg == 'ud':
